@@ -142,6 +142,9 @@ enum Expect {
     Data(Vec<u8>),
     Err(&'static str),
     Open,
+    /// an LZ10 stream behind the 0x13 wrapper: the statement does not say whether the LZ13
+    /// entry point accepts it, but IF it does the data must be the encoded data
+    DataOrErr(Vec<u8>),
 }
 
 fn expect_bare(bytes: &[u8], kind: Kind) -> Expect {
@@ -187,7 +190,10 @@ fn expectation(entry: Entry, bytes: &[u8]) -> Expect {
             }
             match inner[0] {
                 0x11 => expect_bare(inner, Kind::Lz11),
-                0x10 => Expect::Open,
+                0x10 => match expect_bare(inner, Kind::Lz10) {
+                    Expect::Data(d) => Expect::DataOrErr(d),
+                    other => other, // truncated / reference before the start: an error whatever the wrapper
+                },
                 _ => Expect::Err("unknown-type"),
             }
         }
@@ -205,6 +211,7 @@ fn check(entry: Entry, bytes: &[u8], what: &str, t: &mut Tally) -> Option<(Strin
                 Expect::Err(c) => *c,
                 Expect::Data(_) => "conforming",
                 Expect::Open => "unspecified",
+                Expect::DataOrErr(_) => "wrapped-lz10",
             };
             return Some((
                 format!("panic@{}:{}", p.location, cls),
@@ -217,6 +224,18 @@ fn check(entry: Entry, bytes: &[u8], what: &str, t: &mut Tally) -> Option<(Strin
         (Expect::Open, _) => {
             t.class("unspecified-no-panic");
             None
+        }
+        (Expect::DataOrErr(_), Err(_)) => {
+            t.class("wrapped-lz10-rejected");
+            None
+        }
+        (Expect::DataOrErr(d), Ok(g)) => {
+            if d == g {
+                t.class("wrapped-lz10-ok");
+                None
+            } else {
+                Some((format!("wrong-data:{:?}:wrapped-lz10", entry), format!("{:?}.decompress({}) accepted an LZ10 stream behind the 0x13 wrapper but returned {} bytes that differ from the reference expansion ({} bytes)", entry, what, g.len(), d.len())))
+            }
         }
         (Expect::Data(d), Ok(g)) => {
             if d == g {
@@ -292,7 +311,7 @@ fn run_stream_case(s: &Spec, idx: u64, t: &mut Tally) {
     for e in ENTRIES {
         let r = check(e, &stream, "bare stream", t);
         report(r, "bare".into(), t);
-        if s.kind == Kind::Lz11 && e.is_lz13() {
+        if e.is_lz13() {
             let r = check(e, &wrapped, "0x13-wrapped stream", t);
             report(r, "wrapped".into(), t);
         }
@@ -315,7 +334,7 @@ fn run_stream_case(s: &Spec, idx: u64, t: &mut Tally) {
             let r = check(e, &stream[..c], "strict prefix of a conforming stream", t);
             report(r, format!("prefix:{}", c), t);
         }
-        if s.kind == Kind::Lz11 {
+        {
             let r = check(Entry::Lz13, &wrapped[..c + 4], "strict prefix of a wrapped stream", t);
             report(r, format!("wprefix:{}", c + 4), t);
         }
@@ -336,7 +355,7 @@ fn run_stream_case(s: &Spec, idx: u64, t: &mut Tally) {
                         let r = check(e, &bad, "stream with a reference before the start of output", t);
                         report(r, format!("badref:{}:{}", ti, k), t);
                     }
-                    if s.kind == Kind::Lz11 {
+                    {
                         let r = check(Entry::Lz13Enum, &wrap13(&bad), "wrapped stream with a reference before the start of output", t);
                         report(r, format!("wbadref:{}:{}", ti, k), t);
                     }
